@@ -212,7 +212,7 @@ Proof.
   cbn [app]. rewrite refs_run by exact H. reflexivity.
 Qed.
 
-(* ---- envelope-start ::= "===NAME===" --------------------------------------------------------------------------- *)
+(* ---- envelope-start ::= (quoted) ===NAME=== --------------------------------------------------------------------------- *)
 Lemma env_start_line_rule s : forallb plainc (py_upper (sc_name s) (sc_upper s)) = true ->
   exists x, line_rule (env_start_line s) = Some (mkRule n_env_start [[ILit x]]).
 Proof.
